@@ -28,6 +28,8 @@ WORKLOADS = {
     "sched_timed": ("w_sched.cpp", ()),
     "sched_newthread": ("w_sched.cpp", ()),
     "sched_trampoline": ("w_sched.cpp", ()),
+    "timer_thread": ("w_timer.cpp", ()),
+    "timer_unsafe": ("w_timer.cpp", ()),
 }
 
 PROPS = {
@@ -71,5 +73,26 @@ PROPS = {
         real=["manual_event_loop", "single_thread_context", "static_thread_pool", "timed_single_thread_context", "new_thread_context",
               "trampoline_scheduler", "inline_scheduler", "inplace_stop_source", "libstdc++ std::thread/std::mutex/std::condition_variable wrappers"],
         stub=["pthread mutex/cond/create/join (usim)", "clock_gettime (simulated clock)", "heap (usim arena)"],
+    ),
+    "C07": dict(
+        title="Timers: never early, due-time order, prompt single cancellation",
+        batches=[
+            B("w_timer.cpp", "timer_thread", quick=10, thorough=150, oracles=["c07."] + RT_ALL),
+            B("w_timer.cpp", "timer_unsafe", quick=5, thorough=60, oracles=["c07."] + RT_ALL),
+            B("w_timer.cpp", "timer_thread", cfg="S17r", quick=5, thorough=60, oracles=["c07."] + RT_ALL),
+        ],
+        level_text=("Seeded exploration over the real timed_single_thread_context and thread_unsafe_event_loop on a simulated clock: 1-10 timers "
+                    "(schedule_at / schedule_after) with due times drawn from {past, now, equal pairs, near, 1 s, 1 h}, submitted from 1-3 threads "
+                    "and from inside other timers' completions, each optionally cancelled before start, right after start, from a racing stopper "
+                    "thread or from inside another completion; faults: clock jitter, spurious wake-ups, stalled threads (clock jumps while "
+                    "runnable), spurious weak-CAS failure. Oracles: never early against the scheduler's clock, due-time and tie order among "
+                    "untouched timers, prompt cancellation (done before the due time when stopped >2 ms earlier and no stall fault), exactly one "
+                    "completion, op state freed inside the completion (any later reference by the context is a shadow hit), empty queue at destruction."),
+        level_note=("Trusted: usim clock/condvar stubs. Not decided here: the clause 'time_point arithmetic is exact and totally ordered for all "
+                    "representable operands' is a pure function of its operands (no schedule, clock or fault): only incidentally exercised. "
+                    "I/O-context timers are checked once the fd layer exists (see C14)."),
+        real=["timed_single_thread_context (+cancel_callback)", "thread_unsafe_event_loop (+sync_wait driver)", "inplace_stop_source",
+              "libstdc++ std::condition_variable::wait_until / this_thread::sleep_until wrappers"],
+        stub=["clock_gettime/nanosleep/pthread_cond_clockwait on the simulated clock", "pthread mutex/cond/create/join (usim)", "heap (usim arena)"],
     ),
 }
